@@ -927,11 +927,11 @@ PeerConnectionBase::try_request_pieces() {
 
   bool success = false;
 
-  while (request_list()->queued_valid_size() < pipeSize && m_up->can_write_request()) {
+  while (request_list()->queued_size() < pipeSize && m_up->can_write_request()) {
 
     // It should get the right number the first time around, but loop just to be sure
     int maxRequests = m_up->max_write_request();
-    int maxQueued = pipeSize - request_list()->queued_valid_size();
+    int maxQueued = pipeSize - request_list()->queued_size();
     int maxPieces = std::max(std::min(maxRequests, maxQueued), 1);
 
     std::vector<const Piece*> pieces = request_list()->delegate(maxPieces);
